@@ -2,7 +2,8 @@
 //!
 //! `build(flow, tape)` interprets the tape as a sequence of operator applications on a pool of
 //! live collections (top-level streams on two processes, tick streams / singletons / optionals),
-//! with tees (`clone`), tick cycles, top-level forward references and network round trips.
+//! with tees (`clone`), tick cycles, top-level and tick-level forward references, binary top-level
+//! merges and network round trips.
 //! Every value carries the set of forward references it depends on *within the same tick and
 //! location* ("taint"); a forward reference is completed with a value that does not depend on
 //! it unless the tape asks for an undelayed cycle (`allow_bad`).
@@ -39,6 +40,8 @@ pub struct Built {
     pub undelayed_cycle: bool,
     pub tick_cycles: usize,
     pub forward_refs: usize,
+    /// forward references created on the tick location (`tick.forward_ref`)
+    pub tick_forward_refs: usize,
     pub networks: usize,
     pub tees: usize,
 }
@@ -105,18 +108,29 @@ pub fn build<'a>(p1: &Process<'a, P1>, p2: &Process<'a, P2>, tape: &[u8], allow_
         tick_cycles.push(h);
         pool.push((V::Tk(s), Taint::new()));
     }
-    let n_fr = tp.next() % 3;
+    let fr_byte = tp.next();
+    let n_fr = fr_byte % 3;
     let mut fwd: Vec<(usize, ForwardHandle<'a, Top<'a>>)> = vec![];
     for k in 0..n_fr {
         let (h, s) = p1.forward_ref::<Top<'a>>();
         fwd.push((k, h));
         pool.push((V::Top(s), [k].into_iter().collect()));
     }
+    // forward references on the tick location: a dependency on them is synchronous (same tick)
+    let n_tfr = (fr_byte / 3) % 2;
+    let mut tick_fwd: Vec<(usize, ForwardHandle<'a, Tk<'a>>)> = vec![];
+    for j in 0..n_tfr {
+        let k = 100 + j;
+        let (h, s) = tick.forward_ref::<Tk<'a>>();
+        tick_fwd.push((k, h));
+        pool.push((V::Tk(s), [k].into_iter().collect()));
+    }
     b.tick_cycles = n_tc;
     b.forward_refs = n_fr;
+    b.tick_forward_refs = n_tfr;
 
     while !tp.done() {
-        let op = tp.next() % 24;
+        let op = tp.next() % 27;
         let r = tp.next();
         match op {
             0 => {
@@ -275,6 +289,26 @@ pub fn build<'a>(p1: &Process<'a, P1>, p2: &Process<'a, P2>, tape: &[u8], allow_
                     pool.push((V::Op(s.first()), t));
                 }
             }
+            24 => {
+                if let Some((V::Top(s1), t1)) = pick(&mut pool, is_top, r) {
+                    if let Some((V::Top(s2), t2)) = pick(&mut pool, is_top, tp.next()) {
+                        b.ops.push("top.merge_ordered");
+                        pool.push((V::Top(s1.merge_ordered(s2, nondet!(/** generated */))), t1.union(&t2).copied().collect()));
+                    } else {
+                        pool.push((V::Top(s1), t1));
+                    }
+                }
+            }
+            25 => {
+                if let Some((V::Tk(s1), t1)) = pick(&mut pool, is_tk, r) {
+                    if let Some((V::Tk(s2), t2)) = pick(&mut pool, is_tk, tp.next()) {
+                        b.ops.push("tick.filter_not_in");
+                        pool.push((V::Tk(s1.filter_not_in(s2)), t1.union(&t2).copied().collect()));
+                    } else {
+                        pool.push((V::Tk(s1), t1));
+                    }
+                }
+            }
             _ => {
                 if let Some((V::Sg(s), t)) = pick(&mut pool, is_sg, r) {
                     b.ops.push("singleton.all_ticks");
@@ -319,6 +353,34 @@ pub fn build<'a>(p1: &Process<'a, P1>, p2: &Process<'a, P2>, tape: &[u8], allow_
                     t2.extend(t.iter().copied());
                 }
             }
+            s
+        };
+        h.complete(v);
+    }
+    // complete the tick-level forward references
+    for (k, h) in tick_fwd {
+        let cands: Vec<usize> = pool
+            .iter()
+            .enumerate()
+            .filter(|(_, (v, t))| is_tk(v) && (allow_bad || !t.contains(&k)))
+            .map(|(i, _)| i)
+            .collect();
+        let v: Tk<'a> = if cands.is_empty() {
+            tick.singleton(q!(11i64)).into_stream()
+        } else {
+            let (v, t) = pool.remove(cands[tp.next() % cands.len()]);
+            if t.contains(&k) {
+                b.undelayed_cycle = true;
+            }
+            let V::Tk(s) = v else { unreachable!() };
+            for (_, t2) in pool.iter_mut() {
+                if t2.contains(&k) {
+                    t2.extend(t.iter().copied());
+                }
+            }
+            // keep the value alive for other consumers too
+            b.tees += 1;
+            pool.push((V::Tk(s.clone()), t));
             s
         };
         h.complete(v);
